@@ -191,6 +191,11 @@ class C12(Profile):
             for _ in range(rng.randrange(1, 4)):
                 ops.insert(rng.randrange(len(ops) + 1), {'op': 'stray', 'k': rng.randrange(n_ids), 'n': rng.randrange(100),
                                                          'where': rng.choice(['type', 'type', 'type', 'skeleton', 'root'])})
+        if rng.random() < 0.2:
+            # the store directory is named relative to the working directory, which something unrelated changes between the queries
+            cfg['rel_path'] = True
+            for _ in range(rng.randrange(1, 3)):
+                ops.insert(rng.randrange(len(ops) + 1), {'op': 'chdir', 'n': rng.randrange(100)})
         return {'config': cfg, 'pool': pool, 'ops': ops}
 
     def simplify(self, op):
@@ -225,6 +230,8 @@ class C12(Profile):
                 self.op_add(sw, world, op)
             elif op['op'] == 'stray':
                 sw.stray(op['k'], op['n'], op['where'])
+            elif op['op'] == 'chdir':
+                sw.chdir(op['n'])
             else:
                 self.op_query(sw, world, op)
 
